@@ -53,9 +53,16 @@ pub enum CStage { Mapfile, Parse, Validate, Compile, ImageSource, Finalize, Writ
 
 /// Mirror of `cli_def::*_compile::run`.
 pub fn compile_file(truth: &mut Truth, fmt: Fmt, game: Game, text: &[u8], user_maps: &[String], sources: Vec<ImageSrc>) -> Result<Compiled, CStage> {
+    compile_file_ex(truth, fmt, game, text, user_maps, &[], sources)
+}
+
+/// `map_files` are read from disk the way `-m FILE` is (bytes -> UTF-8 check -> seqmap parser).
+pub fn compile_file_ex(truth: &mut Truth, fmt: Fmt, game: Game, text: &[u8], user_maps: &[String], map_files: &[std::path::PathBuf], sources: Vec<ImageSrc>) -> Result<Compiled, CStage> {
     load_core(truth, fmt, game);
     for m in user_maps { truth.apply_mapfile_str(m, game).map_err(|e| { e.ignore(); CStage::Mapfile })?; }
+    for m in map_files { truth.load_mapfile(m, game).map_err(|e| { e.ignore(); CStage::Mapfile })?; }
     let ast = truth.parse::<ast::ScriptFile>("<input>", text).map_err(|e| { e.ignore(); CStage::Parse })?.value;
+    truth.load_mapfiles_from_pragmas(game, &ast).map_err(|e| { e.ignore(); CStage::Mapfile })?;
     if fmt != Fmt::Anm { truth.expect_no_image_sources(&ast).map_err(|e| { e.ignore(); CStage::Parse })?; }
     let mut t = truth.validate_defs().map_err(|e| { e.ignore(); CStage::Validate })?;
     let emitter = t.ctx().emitter;
@@ -64,6 +71,12 @@ pub fn compile_file(truth: &mut Truth, fmt: Fmt, game: Game, text: &[u8], user_m
     match fmt {
         Fmt::Anm => {
             let mut c = ig!(t.compile_anm(game, &ast), CStage::Compile);
+            // image sources referenced in the file take precedence (as in the CLI)
+            for lit in &ast.image_sources {
+                let src = ig!(t.read_image_source(game, std::path::Path::new(&lit.string)), CStage::ImageSource);
+                let fs = t.fs();
+                ig!(c.apply_image_source(src, &fs), CStage::ImageSource);
+            }
             for s in sources {
                 let fs = t.fs();
                 let src = match s {
